@@ -7,6 +7,7 @@ import warnings
 import numpy as np
 
 from .. import common, sites
+from ..common import f2h, h2f
 from ..extract import groups as X
 from ..gen import quat as GQ
 from ..main import lean_phase
@@ -225,18 +226,37 @@ def angle_check(ctx, c, outs):
     G = groups()[c["k"]]
     m = miller(c)
     from orix.vector import Miller
-    o = Miller(phase=m.phase, **{c["fmt"]: np.asarray(c["other"], float).reshape(1, 3)})
+    if "others" in c:
+        # as many `other` vectors as vectors: angles are element-wise (as without symmetry), each the minimum over the orbit
+        # of the OTHER VECTOR AT THE SAME POSITION
+        o = Miller(phase=m.phase, **{c["fmt"]: np.asarray(c["others"], float).reshape(tuple(c["shape"]) + (3,))})
+    else:
+        o = Miller(phase=m.phase, **{c["fmt"]: np.asarray(c["other"], float).reshape(1, 3)})
     with warnings.catch_warnings():
         warnings.simplefilter("ignore")
         a = m.angle_with(o, use_symmetry=True)
         a_deg = m.angle_with(o, use_symmetry=True, degrees=True)
+        plain = m.angle_with(o)
     flat = m.data.reshape(-1, 3)
-    img = images_of(G, o.data.reshape(-1, 3))[0]
-    cosv = (flat @ img.T) / (np.linalg.norm(flat, axis=1)[:, None] * np.linalg.norm(img, axis=1)[None, :])
+    if "others" in c:
+        imgs = images_of(G, o.data.reshape(-1, 3))           # (n, g, 3)
+        cosv = np.einsum("ni,ngi->ng", flat, imgs) / (np.linalg.norm(flat, axis=1)[:, None] * np.linalg.norm(imgs, axis=2))
+    else:
+        img = images_of(G, o.data.reshape(-1, 3))[0]
+        cosv = (flat @ img.T) / (np.linalg.norm(flat, axis=1)[:, None] * np.linalg.norm(img, axis=1)[None, :])
     ref = np.arccos(np.clip(cosv, -1, 1)).min(axis=1).reshape(m.shape)
     if a.shape != tuple(m.shape):
         return f"angle shape {a.shape} for vectors of shape {tuple(m.shape)}"
     if np.abs(a - ref).max() > 2e-6:
+        if "others" in c:
+            allimg = imgs.reshape(-1, 3)
+            cu = (flat @ allimg.T) / (np.linalg.norm(flat, axis=1)[:, None] * np.linalg.norm(allimg, axis=1)[None, :])
+            union = np.arccos(np.clip(cu, -1, 1)).min(axis=1).reshape(m.shape)
+            how = ("it is the minimum over the orbits of ALL other vectors" if np.abs(a - union).max() <= 2e-6
+                   else "it is not the minimum over the orbits of all other vectors either")
+            return (f"{G.name}: angle_with(use_symmetry=True) of {m.size} vectors with {o.size} other vectors (same shape) = {a.tolist()} "
+                    f"but the minimum angles over the orbit of the other vector at the same position are {ref.tolist()}; {how} "
+                    f"(without symmetry, element-wise: {np.asarray(plain).tolist()}; vectors {flat.tolist()}, others {o.data.tolist()})")
         return (f"{G.name}: angle_with(use_symmetry=True) = {a.tolist()} but the minimum angle over the other vector's "
                 f"orbit is {ref.tolist()} (vectors {flat.tolist()}, other {o.data.tolist()})")
     if np.abs(np.deg2rad(a_deg) - a).max() > 1e-12:
@@ -316,6 +336,138 @@ def round_check(ctx, c, outs):
     return None
 
 
+
+# ---- corr: `_round_indices` / `Miller.round` vs the model (MillerRound.lean) ---------------------------------------
+INT_MIN = -2 ** 63
+
+
+def _round_input(c):
+    """the array handed to `_round_indices` (integer dtype when the case says so)"""
+    if c.get("dtype") == "int":
+        return np.asarray(c["x"], dtype=np.int64)
+    return np.asarray(c["x"], dtype=float)
+
+
+def roundm_lines(c):
+    if c["kind"] == "indices":
+        return [f"mround idx {c['max_index']} " + " ".join(f2h(v) for v in row) for row in _round_input(c).astype(float)]
+    # kind "miller": the coordinates `Miller.round` reads off the object (they went through the lattice transforms)
+    from orix.vector import Miller
+    m = Miller(phase=phase_for(c["k"], c["basis"]), **{c["fmt"]: np.asarray(c["x"], float)})
+    op = "miller4" if c["fmt"] in ("hkil", "UVTW") else "idx"
+    return [f"mround {op} {c['max_index']} " + " ".join(f2h(v) for v in row) for row in m.coordinates.reshape(-1, m.coordinates.shape[-1])]
+
+
+def _model_ints(o):
+    """`<m> | i…` or `i…` -> (m or None, [ints]); `!err tag` -> tag"""
+    if o.startswith("!err"):
+        return o.split()[1]
+    if "|" in o:
+        a, b = o.split("|")
+        return int(a), [int(t) for t in b.split()]
+    return None, [int(t) for t in o.split()]
+
+
+def _theorem_vs_model(c, mods):
+    """the Float run of the model against what the theorems over the reals say (round_recovers_primitive,
+    round4_recovers_primitive): measures that floating-point rounding does not change the selected multiplier"""
+    for row, e, mod in zip(c["x"], c.get("expect") or [], mods):
+        if e is not None and (isinstance(mod, str) or mod[1] != e):
+            return (f"model run in Float gives {mod} for {row} (max_index={c['max_index']}) but the theorem over the reals gives {e}: "
+                    "floating-point rounding changed the result")
+    return None
+
+
+def roundm_check(ctx, c, outs):
+    from orix.vector import Miller
+    from orix.vector.miller import _round_indices
+    mi = c["max_index"]
+    if c["kind"] == "indices":
+        x = _round_input(c)
+        with warnings.catch_warnings(), np.errstate(all="ignore"):
+            warnings.simplefilter("ignore")
+            got = _round_indices(x, max_index=mi)
+        if got.shape != x.shape or got.dtype.kind != "i":
+            return f"_round_indices returned shape {got.shape} dtype {got.dtype} for input of shape {x.shape}"
+        for row, g, o in zip(x, got, outs):
+            mod = _model_ints(o)
+            if mod == "zero":
+                continue      # all searched indices zero: numpy divides by zero and returns meaningless integers; no demand
+            if isinstance(mod, str):
+                return f"model rejects {row.tolist()} with '{mod}' but _round_indices returned {g.tolist()}"
+            if [int(t) for t in g] != mod[1]:
+                return (f"_round_indices({row.tolist()}, max_index={mi}) = {g.tolist()} but the model gives {mod[1]} "
+                        f"(multiplier {mod[0]})")
+        return _theorem_vs_model(c, [_model_ints(o) for o in outs])
+    m = Miller(phase=phase_for(c["k"], c["basis"]), **{c["fmt"]: np.asarray(c["x"], float)})
+    mods = [_model_ints(o) for o in outs]
+    try:
+        with warnings.catch_warnings(), np.errstate(all="ignore"):
+            warnings.simplefilter("ignore")
+            r = m.round(max_index=mi)
+    except ValueError as e:
+        if any(mod == "convention" for mod in mods):
+            return None       # the rounded quartet violates h + k + i = 0: the constructor rejects it, and so does the model
+        return f"Miller.round raised ValueError ({e}) but the model returns {mods}"
+    if any(mod == "convention" for mod in mods):
+        return f"the model's rounded quartet violates the four-index convention ({mods}) but Miller.round returned {getattr(r, c['fmt']).tolist()}"
+    got = getattr(r, c["fmt"])
+    if r.coordinate_format != c["fmt"] or r.phase is None or r.phase.point_group.name != m.phase.point_group.name:
+        return "Miller.round lost the coordinate format or the phase"
+    got = got.reshape(-1, got.shape[-1])
+    gi = np.rint(got).astype(np.int64)
+    if np.abs(got - gi).max() > 1e-9:
+        return f"Miller.round returned non-integer indices {got.tolist()}"
+    for row, g, mod in zip(np.asarray(c["x"], float).reshape(len(gi), -1), gi, mods):
+        if mod == "zero":
+            continue
+        if isinstance(mod, str):
+            return f"model rejects {row.tolist()} with '{mod}' but Miller.round returned {g.tolist()}"
+        if [int(t) for t in g] != mod[1]:
+            return f"Miller({c['fmt']}={row.tolist()}).round(max_index={mi}).{c['fmt']} = {g.tolist()} but the model gives {mod[1]}"
+    return _theorem_vs_model(c, mods)
+
+
+# ---- corr: angle_with(use_symmetry=True) vs the model on the live group's operations ----------------------------------
+def _angle_objects(c):
+    from orix.vector import Miller
+    ph = phase_for(c["k"], c["basis"])
+    m = Miller(phase=ph, **{c["fmt"]: np.asarray(c["coords"], float).reshape(-1, 3)})
+    o = Miller(phase=ph, **{c["fmt"]: np.asarray(c["other"], float).reshape(1, 3)})
+    return ph, m, o
+
+
+def anglem_lines(c):
+    ph, m, o = _angle_objects(c)
+    Gm = np.asarray(ph.structure.lattice.metrics, float)       # direct metric tensor: xyz·xyz' = uvw G uvw'
+    head = f"mround angle {c['k']} {c['basis']} " + " ".join(f2h(v) for v in Gm.reshape(-1))
+    ou = " ".join(f2h(v) for v in o.uvw.reshape(-1))
+    return [head + " " + " ".join(f2h(v) for v in row) + " " + ou for row in m.uvw.reshape(-1, 3)]
+
+
+def anglem_check(ctx, c, outs):
+    ph, m, o = _angle_objects(c)
+    with warnings.catch_warnings():
+        warnings.simplefilter("ignore")
+        a = m.angle_with(o, use_symmetry=True)
+    if a.shape != (m.size,):
+        return f"angle shape {a.shape} for {m.size} vectors"
+    for row, ai, out in zip(m.uvw.reshape(-1, 3), a, outs):
+        if out.startswith("!err"):
+            return f"model: {out}"
+        am = h2f(out)
+        # both round the cosine to 12 decimals before arccos: they may land on neighbouring grid points (one step 1e-12);
+        # the implementation takes the images from `symmetrise(unique=True)`, whose Cartesian components are rounded to 10
+        # decimals (Object3d.unique): each image moves by at most sqrt(3)/2 * 1e-10, its direction by that over its length
+        tol = 1.5e-12 + 1e-10 / float(np.linalg.norm(o.data))
+        d = abs(math.cos(ai) - math.cos(am))
+        ctx.dev("angle_model: |cos(angle) - cos(model angle)| / tolerance", d / tol)
+        if not d <= tol:
+            return (f"{groups()[c['k']].name}: angle_with(use_symmetry=True) = {float(ai)!r} but the model (minimum over the images "
+                    f"under the live operations) gives {am!r} for uvw {row.tolist()} vs {o.uvw.tolist()}")
+    return None
+
+
 SITES = {
     "symmetrise_model": sites.Site("symmetrise_model", "corr", sym_check, sym_lines),
     "symmetrise": sites.Site("symmetrise", "prop", symmetrise_check),
@@ -323,8 +475,29 @@ SITES = {
     "unique_sym": sites.Site("unique_sym", "prop", unique_check),
     "round": sites.Site("round", "prop", round_check),
     "reuse": sites.Site("reuse", "prop", reuse_check),
+    "round_model": sites.Site("round_model", "corr", roundm_check, roundm_lines),
+    "angle_model": sites.Site("angle_model", "corr", anglem_check, anglem_lines),
 }
-PREDICATES = {}
+
+
+def round_error_grid(case, what=None):
+    """finding C10-round-error-grid: three-index rounding with max_index >= 52 of vectors ALL of whose largest coprime index
+    is >= 52 (below that the 1e-7 error grid cannot hide a miss: theorem round_recovers_primitive)"""
+    if case.get("fmt") not in ("hkl", "uvw") or int(case.get("max_index", 0)) < 52:
+        return False
+    for v in case["ints"]:
+        g = math.gcd(*[abs(int(t)) for t in v]) or 1
+        if max(abs(int(t)) // g for t in v) < 52:
+            return False
+    return True
+
+
+def angle_several_others(case, what=None):
+    """finding C10-angle-sym-several-others: more than one `other` vector"""
+    return "others" in case and len(case["others"]) > 1 and "it is the minimum over the orbits of ALL other vectors" in (what or "")
+
+
+PREDICATES = {"round_error_grid": round_error_grid, "angle_several_others": angle_several_others}
 
 
 def vectors(rng, G, n):
@@ -353,6 +526,139 @@ def vectors(rng, G, n):
             v = np.array([1.0, 2.0, 3.0])
         out.append([float(x) for x in v])
     return out
+
+
+MAX_INDICES = (1, 2, 5, 12, 20, 60)
+FACTORS = (0.5, 0.37, 1.0 / 3.0, -2.5, 1e-3, 7.0 / 11.0, 123.456, -0.37)
+
+
+def primitive(rng, hi, lo=0):
+    """random integer triplet with gcd 1 and lo <= max |index| <= hi"""
+    while True:
+        w = [int(t) for t in rng.integers(-hi, hi + 1, size=3)]
+        if lo:
+            w[int(rng.integers(3))] = int(rng.choice([-1, 1])) * int(rng.integers(lo, hi + 1))
+        if any(w) and math.gcd(*[abs(t) for t in w]) == 1:
+            return w
+
+
+def quartet(v):
+    return [v[0], v[1], -(v[0] + v[1]), v[2]]
+
+
+def times(w, f):
+    """the multiple f * w of an integer vector, ONE factor for the whole vector"""
+    return [float(t) * float(f) for t in w]
+
+
+def round_model_cases(rng, reps):
+    """(stratum, case) for the `round_model` site: every family for every max_index.  `expect[i]` is what theorem
+    round_recovers_primitive / round4_recovers_primitive says about row i (sign(f) * w for the multiple f * w of a coprime w whose
+    largest searched index is <= min(max_index, 51)), or None where the theorem does not apply."""
+    for mi in MAX_INDICES:
+        def expect(w, f):
+            s3 = [abs(int(w[0])), abs(int(w[1])), abs(int(w[-1]))]
+            if math.gcd(*s3) != 1 or max(s3) > min(mi, 51):
+                return None
+            return [(1 if f > 0 else -1) * int(t) for t in w]
+
+        def case(items, **kw):
+            """items: (w, f) multiples, or a bare row"""
+            x, e = [], []
+            for it in items:
+                if isinstance(it, tuple):
+                    w, f = it
+                    if kw.get("dtype") == "int":
+                        x.append([int(t) * int(f) for t in w])
+                    else:
+                        x.append(times(w, f))
+                    e.append(expect(w, f))
+                else:
+                    x.append(it)
+                    e.append(None)
+            return dict({"kind": "indices", "max_index": mi, "x": x, "expect": e}, **kw)
+
+        def reduced(w):
+            g = math.gcd(*[abs(t) for t in w])
+            return [t // g for t in w]
+
+        for _ in range(reps):
+            ws = [primitive(rng, mi) for _ in range(4)]
+            yield "int_multiple", case(list(zip(ws, (1, 2, 3, -1))), dtype="int")
+            yield "int_multiple", case(list(zip(ws, (1.0, -4.0, 7.0, 12.0))))
+            yield "rational_multiple", case([(primitive(rng, mi), float(rng.choice(FACTORS))) for _ in range(6)])
+            above = []
+            for _ in range(3):
+                w = primitive(rng, mi)
+                w[int(rng.integers(3))] = int(rng.choice([-1, 1])) * (mi + int(rng.integers(1, 3)))
+                above.append((reduced(w), float(rng.choice([1.0, 0.37, -2.0]))))
+            yield "index_above_max", case(above)
+            yield "real", case([[float(t) for t in rng.normal(size=3) * float(rng.choice([1e-3, 1.0, 50.0]))] for _ in range(4)])
+            zs = []
+            for _ in range(3):
+                w = primitive(rng, mi)
+                w[int(rng.integers(3))] = 0
+                if not any(w):
+                    w[int(rng.integers(3))] = 1
+                zs.append((reduced(w), float(rng.choice(FACTORS))))
+            zs.append(([0, 1, 0], float(rng.choice([-1.5, 2.0]))))
+            yield "with_zeros", case(zs)
+            ng = []
+            for _ in range(3):
+                w = primitive(rng, mi)
+                w[0] = -abs(w[0]) if w[0] else -1
+                ng.append((reduced(w), abs(float(rng.choice(FACTORS)))))
+            yield "negative_leading", case(ng)
+            yield "all_equal", case([([1, 1, 1], a) for a in (1.0, -1.0, 0.37, -2.5, float(mi), float(mi + 1), float(rng.normal()))])
+            # dyadic indices: all arithmetic exact, equal errors for several multipliers (first minimum decides),
+            # products exactly half-way between integers (round-half-to-even decides)
+            yield "dyadic_ties", case([[4.0, 3.0, 0.0], [2.0, 1.0, 0.0], [-2.0, 1.0, 1.0], [6.0, 3.0, -9.0], [1.0, 0.5, 0.25],
+                                       [-8.0, 3.0, 5.0]] + [[float(t) / 8 for t in rng.integers(-16, 17, size=3)] for _ in range(3)])
+            qs = []
+            for _ in range(4):
+                lo = mi // 2 + 1
+                h, kk = int(rng.integers(lo, mi + 1)), int(rng.integers(lo, mi + 1))
+                sg = int(rng.choice([-1, 1]))
+                qs.append((quartet(reduced([sg * h, sg * kk, int(rng.integers(-mi, mi + 1))])), float(rng.choice(FACTORS))))
+            yield "quartet_redundant_above_max", case(qs)
+            yield "quartet", case([(quartet(primitive(rng, mi)), float(rng.choice(FACTORS))) for _ in range(3)])
+            yield "quartet", case([(quartet(primitive(rng, mi)), 1)], dtype="int")
+            qr = []
+            for _ in range(3):
+                h, kk, l = (float(t) for t in rng.normal(size=3))
+                qr.append([h, kk, -(h + kk), l])
+            qr += [[0.3, 0.3, -0.6, 1.0], [0.35, 0.35, -0.7, 1.0]]
+            yield "quartet_real", case(qr)
+            yield "zero_vector", case([[0.0, 0.0, 0.0], [1.0, 0.0, 0.0]])
+            yield "zero_vector", case([[0.0, 0.0, 3.0, 0.0], [0.0, 0.0, 0.0, 1.0]])
+            if mi == 60:
+                # largest index 52 … 60: where the 1e-7 error grid can hide a miss (finding C10-round-error-grid): the
+                # model must make the same choice; 40 … 51: must still come back
+                big = []
+                for _ in range(3):
+                    M = int(rng.integers(52, 61))
+                    w = [[M, M, M - 1], [0, M, M - 1], [M - 1, -M, M], [M, 1 - M, 0]][int(rng.integers(4))]
+                    big.append((w, float(rng.choice([1.0, 0.37, -2.5]))))
+                big += [(primitive(rng, 60, lo=40), float(rng.choice(FACTORS))) for _ in range(3)]
+                big += [([51, 51, 50], 0.37), ([0, -51, 50], -2.5)]
+                yield "largest_index_40_60", case(big)
+            # through the Miller object (coordinates go through the lattice transforms; four-index formats are rebuilt)
+            for fmt in ("hkl", "uvw", "hkil", "UVTW"):
+                four = fmt in ("hkil", "UVTW")
+                basis = "hex" if four or rng.integers(2) else "cub"
+                ks = [k for k in range(len(groups())) if basis_of(k) == basis]
+                k = int(ks[int(rng.integers(len(ks)))])
+                rows = []
+                for j in range(3):
+                    w = primitive(rng, mi)
+                    rows.append((quartet(w) if four else w, float(rng.choice(FACTORS)) if j else 1.0))
+                if four:
+                    h, kk, l = (float(t) for t in rng.normal(size=3))
+                    real = [[h, kk, -(h + kk), l]]
+                else:
+                    real = [[float(t) for t in rng.normal(size=3)]]
+                yield f"miller/{fmt}", case(rows, kind="miller", k=k, basis=basis, fmt=fmt)
+                yield f"miller_real/{fmt}", case(real, kind="miller", k=k, basis=basis, fmt=fmt)
 
 
 def generate(ctx):
@@ -409,11 +715,43 @@ def generate(ctx):
                 ctx.count("round/four_index", ("r4", k, tuple(map(tuple, h4)), mi))
                 yield "round", {"k": k, "basis": b, "fmt": ["hkil", "UVTW"][r % 2], "ints": h4,
                                 "factors": [float(rng.choice([0.37, 0.5, 1.0, 2.0])) for _ in h4], "max_index": mi}
+    # Miller.round with max_index = 60: largest index up to 51 (must come back: round_recovers_primitive) and 52 … 60 in the
+    # shape (M, M, M-1) / (0, M, M-1), where multiplier M-1 has an error below half a step of the 1e-7 grid (known finding)
+    names = [g.name for g in gs]
+    for r in range(2 * reps):
+        Ms, Mb = int(rng.integers(30, 52)), int(rng.integers(52, 61))
+        safe = [[Ms, Ms, Ms - 1], [0, -Ms, Ms - 1], primitive(rng, 51, lo=30)][r % 3]
+        big = [[Mb, Mb, Mb - 1], [0, -Mb, Mb - 1], [Mb - 1, Mb, -Mb]][r % 3]
+        kk = names.index(["m-3m", "6/mmm"][r % 2])
+        for stratum, w in (("round/max_index_60/largest_index_le_51", safe), ("round/max_index_60/largest_index_52_60", big)):
+            ctx.count(stratum, ("r60", tuple(w), r))
+            yield "round", {"k": kk, "basis": basis_of(kk), "fmt": ["hkl", "uvw"][(r // 2) % 2], "ints": [w],
+                            "factors": [float(rng.choice([1.0, 0.37, 2.0]))], "max_index": 60}
+    # angle_with(use_symmetry=True) with as many other vectors as vectors (element-wise, like the plain angle)
+    for r in range(2 * reps):
+        kk = int(rng.integers(len(gs)))
+        shape = [(2,), (3,), (2, 2)][r % 3]
+        n = int(np.prod(shape))
+        co = {"k": kk, "basis": basis_of(kk), "fmt": ["hkl", "uvw", "xyz"][r % 3], "shape": list(shape),
+              "coords": vectors(rng, gs[kk], n), "others": vectors(rng, gs[kk], n)}
+        ctx.count("angle_sym/several_others", ("ao", kk, tuple(co["coords"][0]), tuple(co["others"][0])))
+        yield "angle_sym", co
+    for stratum, cm in round_model_cases(rng, 2 if ctx.tier == "quick" else 10):
+        ctx.count(f"round_model/{stratum}", ("rm", stratum, cm["max_index"], repr(cm["x"])), nontrivial=stratum != "zero_vector")
+        yield "round_model", cm
+    for k, G in enumerate(gs):
+        b = basis_of(k)
+        for r in range(reps):
+            fmt = ["hkl", "uvw", "xyz"][(k + r) % 3]
+            ca = {"k": k, "basis": b, "fmt": fmt, "coords": vectors(rng, G, 3), "other": vectors(rng, G, 1)[0]}
+            ctx.count(f"angle_model/{fmt}", ("am", k, fmt, tuple(ca["coords"][0]), tuple(ca["other"])), nontrivial=G.size > 1)
+            yield "angle_model", ca
     ctx.sample({"site": "symmetrise", **c})
 
 
 def run(ctx, status):
-    driver_ok = lean_phase(ctx, status, ["OrixProofs.Properties.C10"])
+    driver_ok = lean_phase(ctx, status, ["OrixProofs.Properties.C10", "OrixProofs.Lemmas.MillerRound",
+                                         "OrixProofs.Lemmas.MillerRoundPrim", "OrixProofs.Lemmas.MillerAngle"])
     if ctx.replay:
         site, case, body = sites.load_replay(ctx.replay)
         if site in SITES:
@@ -426,5 +764,11 @@ def run(ctx, status):
              "exact model comparison; real vectors in general position, on rotation axes / in mirror planes (eigenvectors of "
              "operations), parallel pairs, near-duplicates at 1e-11 and 1e-9, in hkl/uvw/xyz and several shapes; non-trivial "
              "= group order > 1",
-        assumptions=["the 1e-10 rounding of near-duplicates and Miller.round's float search are compared, not proved",
+        assumptions=["the 1e-10 rounding of near-duplicates (Object3d.unique; also applied to the images angle_with(use_symmetry=True) "
+                     "takes its minimum over) is compared, not proved",
+                     "Miller.round / angle_with(use_symmetry=True): the theorems are about the model over the reals (MillerRound.lean: "
+                     "np.round = ties-to-even rint, np.argmin = first minimum, np.max, np.min by contract); floating-point rounding is "
+                     "compared exactly (integer results ==) on seeded inputs, not proved",
+                     "round_recovers_primitive needs largest index <= 51 (3*50^2*51^2 < 2e7); above that the code misses "
+                     "(finding C10-round-error-grid, proved counter-example round_misses_primitive_52)",
                      "the theorems use the regenerated point-group tables (C03)"])
